@@ -98,3 +98,295 @@ def visitset(F, R):
             R.ob('C03.visit-set', ok, sample)
             if not ok:
                 R.find('C03.visit-set', ('boost/msm/backmp11/detail/state_visitor.hpp', 'boost::msm::backmp11::detail::recursive_visit_set'), 'inconsistent', 'submachine %s is %s by the visit set of %s for predicate %s although its own visit set says needs_traversal=%s' % (Facts.short(sub, 60), 'traversed' if sub in trav else 'pruned', Facts.short(sm, 60), Facts.short(plast, 60), truth(child)), where=r['loc'], instance=Facts.short(sm, 120) + ' / ' + Facts.short(plast, 80))
+
+@rule('flags')
+def flags(F, R):
+    """C17.table / C17.pure / C17.visitor."""
+    from rules_core import backend_of
+    from rules_rtc import const_of, active_index
+    from rules_order import dependency_closure
+    from effects import ACTIVE_MEMBERS
+    M = Model(F)
+    def handlers_written(f, depth=0):
+        out = set()
+        if f is None or depth > 3: return out
+        reach = f.reachable_blocks()
+        for b in reach:
+            for i in f.bmap[b]['e']:
+                n = f.nodes[i]
+                if not n: continue
+                if n['k'] == 'asg':
+                    r = f.nodes[n['rhs']]
+                    while r and r['k'] in ('icast', 'cast'): r = f.nodes[r['e']]
+                    if r and r['k'] == 'un' and r['op'] == '&':
+                        t = f.nodes[r['e']]
+                        if t and t['k'] == 'ref' and t['n'] in ('flag_true', 'flag_false', 'forward'): out.add(t['n'])
+                elif n['k'] == 'call' and n.get('n') == 'helper' and 'fk' in n:
+                    out |= handlers_written(F.bykey.get(n['fk']), depth + 1)
+        return out
+    for f in F.funcs:
+        if not f.blocks: continue
+        be = backend_of(f)
+        # ---- back / back11: one handler per state, chosen from the state's flag list
+        if be in ('back', 'back11') and f.cls == 'init_flags' and f.n == 'operator()':
+            flag = strip_cvref(str((f.cls_args('init_flags') or [''])[0]))
+            ta = f.targs() or []
+            st = strip_cvref(str(ta[0])) if ta else ''
+            if not st: continue
+            R.seen(f); R.anchor('init-flags:' + be)
+            fl = [strip_cvref(x) for x in M.flags(st) + M.internal_flags(st)]
+            frec = F.rec_by_type(flag)
+            non_fwd = bool(frec and 'non_forwarding_flag' in frec['tds'])
+            expect = 'flag_true' if flag in fl else ('forward' if (M.machine_of(st) and not non_fwd) else 'flag_false')
+            got = handlers_written(f)
+            ok = got == {expect}
+            R.ob('C17.table', ok, {'state': Facts.short(st, 60), 'flag': Facts.short(flag, 40), 'handler': sorted(got), 'expected': expect})
+            if not ok: R.find('C17.table', f, 'handler:' + expect, 'flag table entry of state %s for flag %s is %s, required %s (state flag list: %s)' % (Facts.short(st, 60), Facts.short(flag, 40), sorted(got), expect, [Facts.short(x, 30) for x in fl]), instance=Facts.short(st, 100) + ' / ' + Facts.short(flag, 60))
+        # ---- back / back11: folding over regions
+        if be in ('back', 'back11') and f.cls == 'state_machine' and f.n == 'is_flag_active' and len(f.targs() or []) == 2:
+            R.seen(f); R.anchor('flag-fold:' + be)
+            ok = bool(f.d.get('const')); why = '' if ok else 'is_flag_active is not const'
+            # first region 0, loop i = 1 .. nr_regions-1, each result folded with BinaryOp, reads only the active ids
+            idx = []
+            for i, n in enumerate(f.nodes):
+                if n and n['k'] == 'sub':
+                    ai = active_index(f, i)
+                    if ai: idx.append(ai[0])
+            consts = [const_of(f, x) for x in idx]
+            if 0 not in consts: ok = False; why = 'region 0 is not consulted'
+            loopvars = [f.nodes[x]['n'] for x in idx if f.nodes[x] and f.nodes[x]['k'] == 'ref' and f.nodes[x].get('dk') == 'local']
+            if not loopvars: ok = False; why = 'no loop over the remaining regions'
+            else:
+                v = loopvars[0]
+                init1 = any(vv['n'] == v and vv['hasinit'] and const_of(f, vv['init']) == 1 for m in f.nodes if m and m['k'] == 'decl' for vv in m['vars'])
+                bound = any(b.get('tc') and f.nodes[b['tc']]['k'] == 'bin' and f.nodes[b['tc']]['op'] == '<' and f.nodes[f.nodes[b['tc']]['lhs']].get('n') == v for b in f.blocks)
+                if not (init1 and bound): ok = False; why = 'loop over regions does not run from 1 to nr_regions-1'
+            writes = [n for n in f.nodes if n and n['k'] == 'asg' and f.base_member(n['lhs'])]
+            if writes: ok = False; why = 'is_flag_active writes a data member'
+            R.ob('C17.pure', ok, {'func': f.q})
+            if not ok: R.find('C17.pure', f, 'fold', why)
+        # ---- backmp11: OR / AND visitor predicates are complementary and the traversal is over the active configuration
+        if be == 'backmp11' and f.cls == 'state_machine_base' and f.n == 'is_flag_active':
+            R.seen(f); R.anchor('flag-query:backmp11')
+            ok = bool(f.d.get('const'))
+            vis = [n for i, n in f.calls() if n.get('n') == 'visit_if']
+            mode = F.targs(vis[0].get('ta'))[0] if vis and vis[0].get('ta') else None
+            if mode != 5: ok = False      # active_states | recursive
+            R.ob('C17.pure', ok, {'func': f.q, 'visit_mode': mode})
+            if not ok: R.find('C17.pure', f, 'mode', 'is_flag_active must be const and traverse the active configuration recursively (visit mode %s)' % mode)
+    for r in F.records:
+        if r['n'] == 'is_flag_active_visitor' and r['loc'].startswith('boost/msm/backmp11/'):
+            a = F.targs(r.get('a')) or []
+            if len(a) < 2: continue
+            R.anchor('flag-visitor:' + str(a[1]).split('::')[-1])
+            init = [fd for fd in r['fields'] if fd['n'] == 'm_result']
+            iv = init[0].get('iv') if init else None
+            expect = 0 if str(a[1]).endswith('flag_or') else 1
+            ok = iv == expect
+            R.ob('C17.visitor', ok, {'visitor': Facts.short(F.strs[r['t']], 80), 'initial_result': iv})
+            if not ok: R.find('C17.visitor', ('boost/msm/backmp11/detail/state_visitor.hpp', 'boost::msm::backmp11::detail::is_flag_active_visitor'), 'init:' + str(a[1]).split('::')[-1], 'flag visitor %s starts with result %s, required %s' % (Facts.short(F.strs[r['t']], 80), iv, expect), where=r['loc'])
+    for f in F.funcs:
+        if f.cls == 'is_flag_active_visitor' and f.n == 'operator()' and backend_of(f) == 'backmp11' and f.blocks:
+            a = f.cls_args('is_flag_active_visitor') or []
+            if len(a) < 2: continue
+            R.seen(f); R.anchor('flag-visitor-call:' + str(a[1]).split('::')[-1])
+            vals = set()
+            for n in f.nodes:
+                if n and n['k'] == 'asg' and f.base_member(n['lhs']) == 'm_result':
+                    r = f.nodes[n['rhs']]
+                    vals.add(r.get('v') if r and r['k'] == 'lit' else '?')
+            expect = {True} if str(a[1]).endswith('flag_or') else {False}
+            ok = vals == expect
+            R.ob('C17.visitor', ok, {'func': f.q, 'sets_result_to': sorted(map(str, vals))})
+            if not ok: R.find('C17.visitor', f, 'set', 'flag visitor sets the result to %s, required %s' % (sorted(map(str, vals)), sorted(map(str, expect))))
+
+def fn_params(t):
+    """parameter type strings of a function-pointer / member-function type string 'R (*)(A, B)' -> ['A','B']"""
+    from facts import split_targs
+    k0 = t.find('(*)')
+    if k0 < 0: k0 = t.find('::*)')
+    if k0 < 0: return None
+    i = t.find('(', t.find(')', k0) + 1)
+    if i < 0: return None
+    depth = 0; j = None
+    for k in range(i, len(t)):
+        if t[k] == '(': depth += 1
+        elif t[k] == ')':
+            depth -= 1
+            if depth == 0: j = k; break
+    if j is None: return None
+    return split_targs(t[i + 1:j])
+
+@rule('casts')
+def casts(F, R):
+    """C18.cast: a row executor stored in a dispatch cell through reinterpret_cast is later called through the cell's signature;
+    when the executor's event parameter type differs from the cell's, the reference is passed without the derived-to-base
+    adjustment.  Harmless only if the trigger is the event's primary base chain (offset 0); any other base is read at the wrong
+    address."""
+    M = Model(F)
+    from rules_core import backend_of
+    for f in F.funcs:
+        if not f.blocks or backend_of(f) is None: continue
+        for i, n in enumerate(f.nodes):
+            if not n or n['k'] != 'cast' or n.get('cc') != 'CXXReinterpretCastExpr': continue
+            to = F.strs[n['to']]
+            src = n['e']; frm = F.strs[n['from']]
+            inner = f.nodes[src]
+            if inner and inner['k'] == 'cast' and inner.get('cc') == 'CXXReinterpretCastExpr':
+                frm = F.strs[inner['from']]
+            elif 'unsigned long' in to or 'uintptr' in to: continue
+            pt, pf = fn_params(to), fn_params(frm)
+            if not pt or not pf or '(*)' not in to: continue
+            et, ef = strip_cvref(pt[-1]), strip_cvref(pf[-1])
+            if not ef or ef == et and len(pt) == len(pf):
+                R.seen(f); R.anchor('cell-cast:' + backend_of(f)); R.ob('C18.cast', True, {'func': f.q, 'event': Facts.short(et, 40)})
+                continue
+            if F.rec_by_type(et) is None and F.rec_by_type(ef) is None: continue       # integer-width / void* erasures: C20.erasure
+            R.seen(f); R.anchor('cell-cast:' + backend_of(f))
+            # primary base chain of the cell's event type
+            chain = []; cur = et
+            while True:
+                rec = F.rec_by_type(cur)
+                if not rec or not rec['bases']: break
+                cur = F.strs[rec['bases'][0]['t']]; chain.append(cur)
+                if rec['bases'][0]['virt']: chain.pop(); break
+            ok = ef in chain
+            R.ob('C18.cast', ok, {'func': f.q, 'cell_event': Facts.short(et, 40), 'executor_event': Facts.short(ef, 40), 'primary_base_chain': [Facts.short(c, 30) for c in chain]})
+            if not ok:
+                R.find('C18.cast', f, 'non-primary-base', 'executor taking %s is stored by reinterpret_cast in a cell called with %s: %s is not on the primary-base chain of %s, so the action reads the wrong subobject' % (Facts.short(ef, 50), Facts.short(et, 50), Facts.short(ef, 50), Facts.short(et, 50)), where=f.at(i), instance='%s <- %s' % (Facts.short(et, 60), Facts.short(ef, 60)))
+
+# ------------------------------------------------------------------ dispatch plans (C01.plan, C07.forward, C18.filter)
+
+def norm_transition(t):
+    """('forward', Sub) | ('row', front-end row type) | ('chain', [...]) from a back-end transition type string"""
+    head, args, rest = parse_type(t)
+    rest = rest.strip()
+    if rest.startswith('::'):
+        h2, a2, r2 = parse_type(rest[2:])
+        nm = h2.split('::')[-1]
+        if nm == 'frow' and a2: return ('forward', a2[0])
+        if nm == 'chain_row' and a2:
+            seq = type_list(a2[0]) or []
+            return ('chain', [norm_transition(x) for x in seq])
+        if a2: return ('row', a2[0])
+    # backmp11: transition_table_impl<SM>::transition<Row,A,G> / internal_transition / forward_transition<Sub> / transition_chain<SM,State,mp_list<...>,Event>
+    nm = head.split('::')[-1]
+    if nm == 'transition_chain' and args and len(args) >= 3:
+        return ('chain', [norm_transition(x) for x in (type_list(args[2]) or [])])
+    return ('other', t)
+
+def flat(c):
+    if c[0] == 'chain':
+        out = []
+        for x in c[1]: out.extend(flat(x))
+        return out
+    return [c]
+
+@rule('plans')
+def plans(F, R):
+    """back / back11 favor_runtime_speed: for every instantiated dispatch_table<Fsm,Stt,Event>, the candidates stored for each state
+    (decoded from the template arguments of the init_cell instantiations) equal the oracle computed from the front-end declarations:
+    exactly the rows with that source whose trigger matches (same type, public base, Kleene), last-declared first, the state's own
+    internal rows before table rows, a forwarding row first for a submachine that (recursively) has a row for the event."""
+    M = Model(F)
+    from rules_core import backend_of
+    tables = {}     # (fsm type, event) -> {state: candidates}
+    from rules_order import dependency_closure
+    for f in F.funcs:
+        # the constructor of dispatch_table<Fsm,Stt,Event,Policy> fills the cells with mpl::for_each<chained_rows>(init_cell(this)):
+        # the sequence type argument of that call is the list of (chained) transitions actually installed
+        if f.cls != 'dispatch_table' or 'ctor' not in (f.d.get('sp') or '') or backend_of(f) not in ('back', 'back11'): continue
+        if 'favor_compile_time' in f.file or not f.blocks: continue
+        da = f.cls_args('dispatch_table')
+        if not da or len(da) < 3: continue
+        fsm, ev = strip_cvref(str(da[0])), str(da[2])
+        for i, n in f.calls():
+            if n.get('n') != 'for_each' or not n.get('ta'): continue
+            is_init = False
+            for a_ in n['args']:
+                for d in dependency_closure(f, a_):
+                    x = f.nodes[d]
+                    if x and x['k'] == 'ctor' and x.get('pc') == 'init_cell': is_init = True
+            if not is_init: continue
+            seq = type_list(str(F.targs(n['ta'])[0])) or []
+            cells = tables.setdefault((fsm, ev), {})
+            for tr in seq:
+                c = norm_transition(tr)
+                rec = F.rec_by_type(tr)
+                st = F.strs[rec['tds']['current_state_type']] if rec and 'current_state_type' in rec['tds'] else None
+                if st is None: continue
+                st = strip_cvref(st)
+                cells[st] = flat(c)      # mpl::for_each visits the sequence in order: a later element for the same state overwrites the cell
+    memo = {}
+    def handles(fe, ev, policy, depth=0):
+        key = (fe, ev)
+        if key in memo: return memo[key]
+        memo[key] = False
+        rows = M.rows(fe)
+        if rows is None or depth > 5: return None
+        r = False
+        for row in rows + (M.rows(fe, 'internal_transition_table') or []):
+            if row['evt'] and M.event_matches(row['evt'], ev, policy): r = True
+        for s in M.states(fe):
+            for row in (M.rows(s, 'internal_transition_table') or []):
+                if row['evt'] and M.event_matches(row['evt'], ev, policy): r = True
+            m = M.machine_of(s)
+            if m and handles(m.fe, ev, policy, depth + 1): r = True
+        memo[key] = r
+        return r
+    for (fsm, ev_raw), cells in sorted(tables.items()):
+        ev = strip_cvref(ev_raw)
+        m = M.machine_of(fsm)
+        if m is None: continue
+        rows = M.rows(m.fe)
+        if rows is None: continue
+        be = m.backend
+        R.anchor('plan-table:' + be)
+        for st in M.states(m.fe):
+            exp = []
+            sub = M.machine_of(st)
+            if sub and handles(sub.fe, ev, 'frs'): exp.append(('forward', st))
+            internal = [r for r in (M.rows(st, 'internal_transition_table') or []) if r['evt'] and M.event_matches(r['evt'], ev, 'frs')] if not sub else []
+            exp += [('row', r['type']) for r in reversed(internal)]
+            own = [r for r in rows if strip_cvref(M.source_state(r) or '') == st and r['evt'] and M.event_matches(r['evt'], ev, 'frs')]
+            exp += [('row', r['type']) for r in reversed(own)]
+            got = cells.get(st, [])
+            ok = got == exp
+            sample = {'machine': Facts.short(m.fe, 50), 'event': Facts.short(ev, 30), 'state': Facts.short(st, 40), 'plan': [(k, Facts.short(v, 50)) for k, v in got]}
+            R.ob('C01.plan', ok, sample)
+            if not ok:
+                R.find('C01.plan', ('boost/msm/%s/dispatch_table.hpp' % be, 'boost::msm::%s::dispatch_table' % be), 'plan', 'candidates generated for state %s on event %s are %s, the declarations give %s' % (Facts.short(st, 50), Facts.short(ev, 40), [(k, Facts.short(v, 60)) for k, v in got], [(k, Facts.short(v, 60)) for k, v in exp]), where='boost/msm/%s/dispatch_table.hpp' % be, instance='%s / %s / %s' % (Facts.short(m.fe, 80), Facts.short(st, 60), Facts.short(ev, 40)))
+
+TAGS_G = {'row_tag', 'g_row_tag', 'irow_tag', 'g_irow_tag', 'sm_i_row_tag', 'sm_g_i_row_tag'}
+TAGS_A = {'row_tag', 'a_row_tag', 'irow_tag', 'a_irow_tag', 'sm_i_row_tag', 'sm_a_i_row_tag'}
+TAGS_INTERNAL = {'irow_tag', 'a_irow_tag', 'g_irow_tag', '_irow_tag', 'sm_i_row_tag', 'sm_a_i_row_tag', 'sm_g_i_row_tag', 'sm__i_row_tag'}
+
+@rule('rowtags')
+def rowtags(F, R):
+    """C14.rows: every front-end row class (member-function rows, row2 family, functor Row / Internal, state-local internal rows)
+    carries the tag that matches what it provides: guard_call exists iff the tag is a guard tag, action_call iff an action tag, the tag
+    is an internal one iff the row has no target (Target == Source / none); functor rows additionally agree with their Guard / Action
+    typedefs (none <=> no call)."""
+    for r in F.records:
+        if 'row_type_tag' not in r['tds']: continue
+        if not (r['loc'].startswith('boost/msm/front/') or r['org'] == 2): continue
+        tag = F.strs[r['tds']['row_type_tag']].split('::')[-1]
+        if tag not in TAGS_G | TAGS_A | TAGS_INTERNAL | {'_row_tag'}: continue
+        meths = set(r['methods'])
+        fam = r['loc'].split(':')[0].split('/')[-1] + ':' + r['n']
+        R.anchor('front-row:' + fam)
+        hasg, hasa = 'guard_call' in meths, 'action_call' in meths
+        ok = (hasg == (tag in TAGS_G)) and (hasa == (tag in TAGS_A))
+        why = 'tag %s but guard_call=%s action_call=%s' % (tag, hasg, hasa)
+        g = F.strs[r['tds']['Guard']] if 'Guard' in r['tds'] else None
+        a = F.strs[r['tds']['Action']] if 'Action' in r['tds'] else None
+        if ok and g is not None and (g.endswith('front::none')) != (tag not in TAGS_G): ok = False; why = 'tag %s but Guard typedef is %s' % (tag, Facts.short(g, 40))
+        if ok and a is not None and (a.endswith('front::none')) != (tag not in TAGS_A): ok = False; why = 'tag %s but Action typedef is %s' % (tag, Facts.short(a, 40))
+        src = F.strs[r['tds']['Source']] if 'Source' in r['tds'] else None
+        tgt = F.strs[r['tds']['Target']] if 'Target' in r['tds'] else None
+        if ok and src is not None and tgt is not None and tag in ('row_tag', 'a_row_tag', 'g_row_tag', '_row_tag', 'irow_tag', 'a_irow_tag', 'g_irow_tag', '_irow_tag'):
+            internal = tgt.endswith('front::none') or (tgt == src and tag in TAGS_INTERNAL)
+            if internal != (tag in TAGS_INTERNAL): ok = False; why = 'tag %s but Source=%s Target=%s' % (tag, Facts.short(src, 30), Facts.short(tgt, 30))
+        R.ob('C14.rows', ok, {'row': Facts.short(F.strs[r['t']], 90), 'tag': tag, 'guard_call': hasg, 'action_call': hasa})
+        if not ok:
+            R.find('C14.rows', (r['loc'].split(':')[0], r['q']), 'tag:' + tag, 'front-end row %s: %s' % (Facts.short(F.strs[r['t']], 120), why), where=r['loc'], instance=Facts.short(F.strs[r['t']], 200))
